@@ -142,12 +142,18 @@ def _mentions(n: ast.AST, name: str) -> bool:
     return any((isinstance(c, ast.Attribute) and c.attr == name) or (isinstance(c, ast.Name) and c.id == name) for c in ast.walk(n))
 
 
-def _active_test(test: ast.AST) -> str | None:
-    """which branch of `if <test>` a run that is in memory takes: "body" for `x in …_active_run_ids`, "else" for `not in`"""
+def _active_test(test: ast.AST, aliases: dict | None = None) -> str | None:
+    """which branch of `if <test>` a run that is in memory takes: "body" for `x in …_active_run_ids`, "else" for `not in`
+    (`aliases`: local names assigned such a membership test)"""
     neg = False
-    while isinstance(test, ast.UnaryOp) and isinstance(test.op, ast.Not):
-        neg = not neg
-        test = test.operand
+    while True:
+        if isinstance(test, ast.UnaryOp) and isinstance(test.op, ast.Not):
+            neg = not neg
+            test = test.operand
+        elif isinstance(test, ast.Name) and aliases and test.id in aliases:
+            test = aliases[test.id]
+        else:
+            break
     if isinstance(test, ast.Compare) and len(test.ops) == 1 and _mentions(test.comparators[0], "_active_run_ids"):
         if isinstance(test.ops[0], ast.In):
             return "else" if neg else "body"
@@ -156,20 +162,26 @@ def _active_test(test: ast.AST) -> str | None:
     return None
 
 
-def _walk_path(stmts: list, in_memory: bool, deliver: str, acc: list) -> bool:
+def _walk_path(stmts: list, in_memory: bool, deliver: str, acc: list, aliases: dict | None = None, tree: ast.AST | None = None,
+               depth: int = 0) -> bool:
     """the calls made, in order, by the path of a run that is (not) in memory through `stmts`, up to the call of `deliver`
     (appended as "deliver"); True once the path is over (delivered / returned / raised).  Branches that do not test the
     active set are not followed (a write inside one is conditional: recorded as "maybe:…")."""
+    aliases = {} if aliases is None else aliases
     for st in stmts:
         if isinstance(st, (ast.AsyncWith, ast.With)):
-            if _walk_path(st.body, in_memory, deliver, acc):
+            if _walk_path(st.body, in_memory, deliver, acc, aliases, tree, depth):
                 return True
             continue
+        if isinstance(st, ast.Assign) and len(st.targets) == 1 and isinstance(st.targets[0], ast.Name) \
+                and _active_test(st.value, aliases) is not None and not any(isinstance(c, ast.Call) for c in ast.walk(st.value)):
+            aliases[st.targets[0].id] = st.value
+            continue
         if isinstance(st, ast.If):
-            side = _active_test(st.test)
+            side = _active_test(st.test, aliases)
             if side is not None:
                 take = st.body if (side == "body") == in_memory else st.orelse
-                if _walk_path(take, in_memory, deliver, acc):
+                if _walk_path(take, in_memory, deliver, acc, aliases, tree, depth):
                     return True
                 continue
             for c in ast.walk(st):
@@ -189,6 +201,10 @@ def _walk_path(stmts: list, in_memory: bool, deliver: str, acc: list) -> bool:
                 acc.append(w)
             elif _call_name(c) in ("_ensure_active_run_locked", "_ensure_active_run"):
                 acc.append("reload")
+                # what the callee does on this kind of run (e.g. an early return for a run in memory) is part of the path
+                callee = _find_def(tree, _call_name(c) or "", "IdleReleaseDecorator") if tree is not None and depth < 2 else None
+                if callee is not None:
+                    _walk_path(callee.body, in_memory, "\0", acc, {}, tree, depth + 1)  # type: ignore[attr-defined]
             elif _call_name(c) == deliver and isinstance(c.func, ast.Attribute) and _mentions(c.func.value, "_decorated"):
                 acc.append("deliver")
                 return True
@@ -218,8 +234,8 @@ def _idle_mark_shape(notes: list[str]) -> dict:
     else:
         mem: list = []
         rel: list = []
-        _walk_path(fn.body, True, "send_event", mem)  # type: ignore[attr-defined]
-        _walk_path(fn.body, False, "send_event", rel)  # type: ignore[attr-defined]
+        _walk_path(fn.body, True, "send_event", mem, None, tree)  # type: ignore[attr-defined]
+        _walk_path(fn.body, False, "send_event", rel, None, tree)  # type: ignore[attr-defined]
         res["sendClearsMarkInMemory"] = "deliver" in mem and "clear" in mem[: mem.index("deliver")] and "set" not in mem and "maybe:set" not in mem
         res["sendReloadsReleasedRun"] = "deliver" in rel and "reload" in rel[: rel.index("deliver")]
     # ---- the reload: idle_since cleared after the run was started again, on the function's main path
